@@ -11,7 +11,8 @@ VARIANTS = ['apply', 'map', 'imap']
 REPLAYERS = {'pool.TimeoutHandler.handle_timeouts': 'replayers/timeout_scan.py',
              'pool.Worker.workloop': 'replayers/workloop.py',
              'pool.TimeoutHandler.on_hard_timeout': 'replayers/hard_timeout.py',
-             'pool.Pool.apply_async': 'replayers/apply_limits.py'}
+             'pool.Pool.apply_async': 'replayers/apply_limits.py',
+             'pool.TimeoutHandler._trywaitkill': 'replayers/hard_timeout.py'}
 
 ASSUMPTIONS = [
     'A-clock: the worker\'s monotonic() that stamps the acceptance and the parent\'s are the same system-wide clock; clock arithmetic exact',
